@@ -754,10 +754,12 @@ func (ndb *nodeDB) deleteVersionsTo(toVersion int64) error {
 
 	rootkeyCache := newRootkeyCache()
 	for version := first; version <= toVersion; version++ {
+		verifYield("deleteVersionsTo:beforeVersion")
 		if err := ndb.deleteVersion(version, rootkeyCache); err != nil {
 			return err
 		}
 		ndb.resetFirstVersion(version + 1)
+		verifYield("deleteVersionsTo:afterVersion")
 	}
 
 	return nil
